@@ -29,7 +29,7 @@ def default_cfg():
     }
 
 
-MACRO_OPS = ('churn', 'lagsnap', 'stalereply', 'fig8', 'staleterm', 'specsnap', 'ghostfwd')
+MACRO_OPS = ('churn', 'lagsnap', 'stalereply', 'fig8', 'staleterm', 'specsnap', 'specsnap2', 'ghostfwd')
 
 
 class Sim(object):
